@@ -1,7 +1,8 @@
 (** Property C03: conditions are AND within a list, OR across lists; an unmatched entry is as good as absent,
     and no argument value can make a rule written for another syscall match. *)
 From Coq Require Import List NArith Bool String.
-From Seccomp Require Import Words Result Machine Policy Spec CompileProofs CoreTheorems CoreExamples.
+From Seccomp Require Import Words Result Machine Policy Spec CompileProofs CoreTheorems CoreExamples Codegen CodegenTemplates.
+From Gen Require Import GenCodegen.
 Import ListNotations.
 Open Scope N_scope.
 
@@ -52,6 +53,27 @@ Proof.
   rewrite (decide_unmatched_entry_as_absent k ai pol ev j g i nc Hg Hn Hm). reflexivity.
 Qed.
 Print Assumptions C03_programs_agree_without_unmatched_entry.
+
+(** ** The tie to the source at the level of the code generator itself.
+    [entry_template] (gen/GenCodegen.v) is SyscallWithConditions.Assemble REGENERATED from filter.go on every run as a builder
+    template: the early return for an entry without conditions, nextSyscall, the jump over the entry, the loop over the
+    condition lists (noMatch), the loop over the conditions of a list (nextArgument; match is the action on the last
+    condition), the operation chain, the reload of the syscall number, and the placing of every label. Its meaning -
+    with Go's scoping of loop-local variables - is exactly the model's [gen_ent], for every entry, action label, next
+    label and byte order (induction over the lists; [cond_chain] is the regenerated operation chain of C02). *)
+Theorem C03_source_entry_is_the_model : forall le e action n,
+  entry_nondegenerate e ->
+  interp_entry le cond_chain entry_template e action n = Some (gen_ent le e action n).
+Proof.
+  intros le e action n H. change entry_template with expected_entry_template.
+  apply expected_entry_is_gen_ent; [|exact H]. apply chain_ok_sound. vm_compute. reflexivity.
+Qed.
+Print Assumptions C03_source_entry_is_the_model.
+
+(** every entry toSyscallsWithConditions produces is of that kind (a conditional entry has at least one list) *)
+Theorem C03_validated_entries_nondegenerate : forall e, entry_ok e -> entry_nondegenerate e.
+Proof. intros [num|num [|cs ls]] H; cbn in *; auto. destruct H as [H _]. apply H. reflexivity. Qed.
+Print Assumptions C03_validated_entries_nondegenerate.
 
 Theorem C03_nonvacuous :
   nth_error (p_groups ex_policy) 0 <> None /\
